@@ -34,6 +34,9 @@ double fpsym_concrete(double v);
 // identity of the expression carried by v (0 when v is concrete); equal ids <=> syntactically identical expression.
 // Harness-internal look-ups key on it so that a coincidence of concrete values on the class representative does not merge points.
 long fpsym_exprid(double v);
+// an integer the harness derived from expression identities (numbering of distinct points ...): recorded on the explored run and
+// replayed verbatim when a counterexample is re-run on the plain build (where all expression ids are 0)
+long fpsym_recorded(long computed);
 // integer meta-data for evidence (sizes, counts)
 void fpsym_note(const char *key, long v);
 // inputs violating cond are outside the claim: the run stops here and the class is recorded as "assumed away"
